@@ -46,7 +46,9 @@ class Layout:
             if os.path.exists(p):
                 os.unlink(p)
 
-    def run(self, name, args, env, script, timeout=60, preload=None, cwd=None, extra_env=None, preexec=None):
+    def run(self, name, args, env, script, timeout=60, preload=None, cwd=None, extra_env=None, preexec=None, stdout_full=False):
+        """stdout_full: the executable's stdout is /dev/full (a log pipe whose reader went away); script["print"] makes the buildpack code
+        leave an unterminated line in the stdout buffer"""
         with open(self.script, "w") as f:
             json.dump(_strip_intents(script), f, allow_nan=False)
         e = dict(vp.hostile_env())      # (CI variables, a stale $PWD, stale CNB_* path variables of an outer run, ...: none of them is an input)
@@ -55,7 +57,7 @@ class Layout:
         if extra_env:
             e.update(extra_env)
         exe = os.path.join(self.bp, "bin", name)
-        p = subprocess.run([exe] + list(args), cwd=cwd or self.app, env=e, stdout=subprocess.PIPE, stderr=subprocess.PIPE, timeout=timeout, preexec_fn=preexec)
+        p = subprocess.run([exe] + list(args), cwd=cwd or self.app, env=e, stdout=open("/dev/full", "wb") if stdout_full else subprocess.PIPE, stderr=subprocess.PIPE, timeout=timeout, preexec_fn=preexec)
         marker = open(self.marker).read().split("\n")[:-1] if os.path.exists(self.marker) else []
         return p.returncode, marker, p.stderr.decode(errors="replace")
 
